@@ -1275,6 +1275,29 @@ func ruleWSSET(c *Ctx, r *Report) {
 			continue
 		}
 		cps, _ := c.cyclePathsOpt(s, c.lexInl(lr, false))
+		// no reserved symbol continues a bare word either (a field name glued to its colon and value must
+		// split at the colon whatever the neighbouring characters are)
+		for _, w := range []int64{'(', ')', '[', ']', '{', '}', ':', '+', '=', '>', '<', '~', '^', '"', '\''} {
+			for i, cp := range cps {
+				infeasible := false
+				for _, a := range cp.atoms {
+					if f, known := c.atomFalseAt(a, rk, w); known && f {
+						infeasible = true
+					}
+					if a.Kind == "call" && a.Val == rk {
+						if b, ok := c.tablePredAt(a, w); ok && b != a.Pos {
+							infeasible = true
+						}
+					}
+				}
+				key := fmt.Sprintf("%s|cycle%d|symbol %q", fnName(s), i, rune(w))
+				if infeasible {
+					r.ok(rule, key, c.pos(s.Pos()), "cycle infeasible at this rune")
+				} else {
+					r.bad(rule, key, c.pos(s.Pos()), fmt.Sprintf("%s keeps reading over the reserved symbol %q under some condition (%s): whether the symbol separates two tokens then depends on the characters around it, so spacing or parentheses change the tree", fnName(s), rune(w), strings.Join(atomStrings(cp.atoms), " ∧ ")))
+				}
+			}
+		}
 		for _, w := range []int64{' ', '\t', '\n', '\r'} {
 			for i, cp := range cps {
 				infeasible := false
